@@ -124,15 +124,9 @@ Theorem C46_from_cimport_scan_fixed :
 Proof. exact from_cimport_scan_fixed. Qed.
 Print Assumptions C46_from_cimport_scan_fixed.
 
-(* non-vacuity: a graph with a 2-cycle below a diamond and a self-loop; queried 3, 0, 1 on one
+(* non-vacuity (graphs ex_out / ex_cyc of Model/M_DepTree.v): a 2-cycle below a diamond and a self-loop; queried 3, 0, 1 on one
    cache.  Hypotheses hold; answers as computed; and the fuel bound |V|+1 is not slack: with
    fuel |V| the same first query is out of fuel on a 4-cycle. *)
-Definition ex_out (n : node) : list node :=
-  match n with 0 => [1; 2] | 1 => [3] | 2 => [3; 2] | 3 => [1; 3] | _ => [] end.
-Definition ex_ext (n : node) : nset := [n].
-Definition ex_cyc (n : node) : list node :=
-  match n with 0 => [1] | 1 => [2] | 2 => [3] | 3 => [0] | _ => [] end.
-
 Example C46_nonvacuous :
   (forall v, In v [0; 1; 2; 3] -> incl (ex_out v) [0; 1; 2; 3]) /\
   incl [3; 0; 1] [0; 1; 2; 3] /\
